@@ -437,6 +437,78 @@ func c01(r *mon.Run) {
 			res, _, _ := cx.runBoth(tree, expr, map[string]interface{}{"a": float64(1)})
 			c01Account(t, tree, expr, nil, res, i)
 		}})
+	// hashes that name members after themselves (`{a: a, b: b}`), with names repeated, on objects that have exactly, fewer and more
+	// members than the hash has pairs: the result has one member per distinct name - it is never the input object itself
+	idNames := []string{"a", "b", "c"}
+	idDocs := []interface{}{docs.J(`{"a":1,"b":2}`), docs.J(`{"a":1}`), docs.J(`{"a":1,"b":2,"c":3}`), docs.J(`{"a":null,"b":2}`), docs.J(`{"b":2,"c":3}`), docs.J(`{"a":{"a":1,"b":2},"b":[1]}`), docs.J(`{}`), docs.J(`[{"a":1,"b":2}]`)}
+	nid := 3 + 9 + 27 + 81
+	ws = append(ws, mon.Workload{Name: "hashes-that-name-members-after-themselves", N: nid * len(idDocs) * 2, Batch: 500,
+		Do: func(i int, t *mon.Tally) {
+			doc := idDocs[i/2%len(idDocs)]
+			k := i / 2 / len(idDocs)
+			l, p := 1, 3
+			for k >= p {
+				k -= p
+				l++
+				p *= 3
+			}
+			keys := make([]gen.Key, l)
+			vals := make([]*gen.Expr, l)
+			for q := 0; q < l; q++ {
+				keys[q] = gen.Key{Name: idNames[k%3]}
+				vals[q] = gen.Field(idNames[k%3])
+				k /= 3
+			}
+			tree := gen.MultiHash(keys, vals)
+			if i%2 == 1 {
+				tree = gen.Chain(gen.MultiList(gen.Current(), gen.Field("a")), gen.StListStar(), gen.StMultiHash(keys, vals))
+			}
+			expr := gen.SpellTight(tree)
+			cx := &caseCtx{r, t, "hashes-that-name-members-after-themselves", i}
+			res, _, _ := cx.runBoth(tree, expr, doc)
+			c01Account(t, tree, expr, doc, res, i)
+		}})
+	// one document object that its owner UPDATES between searches (the same map, the same backing array, the same sizes - other
+	// values): every search answers for the document as it is now
+	updExprs := []*gen.Expr{gen.Chain(gen.Field("items"), gen.StIndex(-1)), gen.Chain(gen.Field("items"), gen.StIndex(0)), gen.Field("n"), gen.Chain(gen.Field("o"), gen.StField("k")), gen.MultiList(gen.Field("n"), gen.Chain(gen.Field("items"), gen.StIndex(1))),
+		gen.MultiHash(keyA("v"), []*gen.Expr{gen.Chain(gen.Field("o"), gen.StField("k"))}), gen.Pipe(gen.Field("items"), gen.Chain(nil, gen.StIndex(2))), gen.Current(), gen.Chain(gen.Current(), gen.StField("s")), gen.Chain(gen.Field("rows"), gen.StIndex(0), gen.StField("a")), gen.Chain(nil, gen.StIndex(1))}
+	ws = append(ws, mon.Workload{Name: "one-document-object-updated-between-searches", N: len(updExprs) * 2, Batch: 4,
+		Do: func(i int, t *mon.Tally) {
+			tree := updExprs[i/2]
+			expr := gen.Spell(tree)
+			jp, co := apiCompile(expr)
+			if co.Panicked || co.Err != nil {
+				r.Inconclusive("C01 workload expression does not compile: " + expr)
+				return
+			}
+			items := []interface{}{float64(1), float64(2), float64(3)}
+			inner := map[string]interface{}{"k": "k0"}
+			row := map[string]interface{}{"a": float64(0)}
+			m := map[string]interface{}{"items": items, "n": float64(0), "o": inner, "s": "s0", "rows": []interface{}{row}}
+			arrDoc := []interface{}{float64(0), float64(0), float64(0)}
+			cx := &caseCtx{r, t, "one-document-object-updated-between-searches", i}
+			for step := 1; step <= 40; step++ {
+				// the owner's update: same containers, new contents (a null now and then, a value of another kind)
+				items[step%3], m["n"], inner["k"], m["s"], row["a"] = float64(step*7), float64(step), "k"+strconv.Itoa(step), "s"+strconv.Itoa(step%5), float64(step%4)
+				if step%6 == 0 {
+					items[2], inner["k"] = nil, float64(step)
+				}
+				arrDoc[step%3] = float64(step)
+				var doc interface{} = m
+				if i%2 == 1 {
+					doc = arrDoc
+				}
+				want := ref.RefSet(tree, mon.DeepCopy(doc), gen.Quirks{})
+				o := apiJP(jp, doc)
+				if !cx.judge(tree, expr, mon.DeepCopy(doc), "Compile+Search (search "+strconv.Itoa(step)+" on one document object that is updated in place between searches)", o, want) {
+					return
+				}
+				if o2 := apiSearch(expr, doc); !cx.judge(tree, expr, mon.DeepCopy(doc), "Search (the same document object again)", o2, want) {
+					return
+				}
+			}
+			t.Nontrivial("upd:" + strconv.Itoa(i))
+		}})
 	ws = append(ws, kindPairsWorkload(r, "C01"))
 	r.Exec(ws...)
 }
